@@ -270,8 +270,17 @@ func (tree *MutableTree) set(key []byte, value []byte) (updated bool, err error)
 		return updated, nil
 	}
 
-	tree.root, updated, err = tree.recursiveSet(tree.root, key, value)
-	return updated, err
+	// recursiveSet copies the nodes it changes: when it fails (a node could not be fetched) the
+	// working tree and the unsaved fast-node changes are left as they were.
+	newRoot, updated, err := tree.recursiveSet(tree.root, key, value)
+	if err != nil {
+		return false, err
+	}
+	tree.root = newRoot
+	if !tree.skipFastStorageUpgrade {
+		tree.addUnsavedAddition(key, fastnode.NewNode(key, value, tree.version+1))
+	}
+	return updated, nil
 }
 
 func (tree *MutableTree) recursiveSet(node *Node, key []byte, value []byte) (
@@ -314,10 +323,6 @@ func (tree *MutableTree) recursiveSet(node *Node, key []byte, value []byte) (
 func (tree *MutableTree) recursiveSetLeaf(node *Node, key []byte, value []byte) (
 	newSelf *Node, updated bool, err error,
 ) {
-	version := tree.version + 1
-	if !tree.skipFastStorageUpgrade {
-		tree.addUnsavedAddition(key, fastnode.NewNode(key, value, version))
-	}
 	switch bytes.Compare(key, node.key) {
 	case -1: // setKey < leafKey
 		return &Node{
